@@ -15,7 +15,7 @@ and each is compared with the real interpreter: value or error condition of ever
 step counts (binding B1).  Outside the Machine (stated in DESIGN 7): floats, int64 boundaries, string contents,
 vectors / maps / bytes (their sharing discipline is C11).
 """
-import random, json, itertools
+import random, json, itertools, math
 from vlib import *
 import progs as P, mach
 from progs import S, Q, STR
@@ -375,6 +375,28 @@ def wrap(n):
 def arith_oracle(op, args):
     """('int', n) | ('float', f) | ('float-any',) for NaN / infinities"""
     isf = any(isinstance(a, float) for a in args)
+    if op == "mod":
+        a, b = args
+        if b == 0:
+            return ("error",)
+        q = abs(a) // abs(b)
+        q = q if (a >= 0) == (b >= 0) else -q              # truncated division: the sign of the dividend
+        return ("int", wrap(a - b * q))
+    if op == "pow":
+        a, b = args
+        if not isf:
+            if b == 0:
+                return ("int", 1)
+            if b > 0:
+                return ("int", wrap(pow(a, b, 1 << 64)))
+        try:
+            return ("float", math.pow(float(a), float(b)))
+        except (OverflowError, ValueError, ZeroDivisionError):
+            return ("float-any",)
+    if op == "to-int":
+        return ("int", int(args[0]))
+    if op == "to-float":
+        return ("float", float(args[0]))
     if op in "+*-":
         if not isf:
             if op == "+":
@@ -422,6 +444,20 @@ def arith_cases(rnd, n):
     fl = [0.5, 1.5, -2.5, 2.0, 0.0, 0.25, 8.0, -0.125]
     out = []
     for _ in range(n):
+        if rnd.random() < 0.2:
+            # other numeric leaves: mod (truncated), pow (wrapping for ints, exact dyadic cases for floats), conversions
+            op = rnd.choice(["mod", "pow", "pow", "to-int", "to-float"])
+            if op == "mod":
+                args = [rnd.choice(big + small), rnd.choice(small + [7, -7, (1 << 63) - 1, -(1 << 63)])]
+            elif op == "pow":
+                args = rnd.choice([[rnd.choice(big + small), rnd.choice([0, 1, 2, 3, 5, 63, 64, 65])], [rnd.choice(small), rnd.choice([-1, -2, 0, 2])],
+                                   [rnd.choice(fl), rnd.choice([0, 1, 2, 3, -1, -2])], [rnd.choice([2, 4, 16]), rnd.choice([0.5, 2.0, -1.0])]])
+            elif op == "to-int":
+                args = [rnd.choice(big + small + fl + [2.75, -2.75, 1e15, -123456.5])]
+            else:
+                args = [rnd.choice(big + small + fl)]
+            out.append((op, args))
+            continue
         op = rnd.choice("+-*/")
         k = rnd.choice([0, 1, 2, 2, 3, 4])
         fam = rnd.random()
@@ -634,7 +670,10 @@ def _run(V, work, tier):
         want = arith_oracle(op, args)
         v = ev["v"]
         src = "(%s %s)" % (op, " ".join(repr(a) for a in args))
-        if v["t"] == "err":
+        if want[0] == "error":
+            if v["t"] != "err":
+                V.add(None, "leaf law: %s gives %s, an error was expected" % (src, json.dumps(v)), {"src": src})
+        elif v["t"] == "err":
             V.add(None, "leaf law: %s raises %s" % (src, (ev.get("err") or {}).get("msg")), {"src": src})
         elif want[0] == "int" and not (v["t"] == "int" and v["n"] == want[1]):
             V.add(None, "leaf law: %s gives %s, exact 64-bit arithmetic gives the int %d" % (src, json.dumps(v), want[1]), {"src": src})
@@ -654,6 +693,19 @@ def _run(V, work, tier):
         ea, eb = r["runs"][0]["evals"]
         if json.dumps(ea["v"], sort_keys=True) != json.dumps(eb["v"], sort_keys=True):
             V.add("thread-reeval", "%s gives %s, the nested form %s gives %s" % (a, json.dumps(ea["v"])[:120], b, json.dumps(eb["v"])[:120]), {"src": a, "nested": b})
+    # ---- closures made in let / let* VALUE expressions: Machine.tla follows the code (values are evaluated in the let's
+    # own environment, so such a closure later sees the let's bindings); the reference (docs/lang.md: "result2 cannot
+    # reference variable1", let* sees the EARLIER bindings only) says the closure belongs to the scope outside
+    LV = [("(set 'x 0) (let ((x 1) (f (lambda () x))) (funcall f))", {"t": "int", "n": 0}),
+          ("(set 'x 0) (let* ((f (lambda () x)) (x 1)) (funcall f))", {"t": "int", "n": 0}),
+          ("(defun cnt (n) 'global) (let ((cnt (lambda (n) (if (<= n 0) 'local (cnt (- n 1)))))) (funcall cnt 2))", {"t": "sym", "s": "global"}),
+          ("(set 'x 0) (let ((x 1) (y (+ x 10))) y)", {"t": "int", "n": 10})]
+    lres = driver_json(binary, ["run"], [{"id": i, "seq": [a], "cfg": {"nostdlib": True}} for i, (a, _) in enumerate(LV)])
+    for r in lres:
+        a, want = LV[r["id"]]
+        v = r["runs"][0]["evals"][0]["v"]
+        if any(v.get(k) != want[k] for k in want):
+            V.add("let-value-closure", "%s gives %s, the documented scoping gives %s" % (a, json.dumps(v)[:120], json.dumps(want)), {"src": a})
     V.coverage["exhaustive"] = False
     V.coverage["explanation"] = "scope family: all 343 nestings of 3 binders x sampled mutation/capture patterns; binding family: every formal list of <= 3 names x 0..4 arguments x 3 call paths (exhaustive); %d seeded typed random programs" % cnt.get("random", 0)
     return V.finish()
